@@ -24,14 +24,15 @@ def splitOnAcc (p : Char → Bool) : Str → Str → List Str
 /-- the fields of an unquoted value: the maximal runs of non-IFS characters -/
 def fieldsOf (ifs : Str) (v : Str) : List Str := (splitOnAcc ifs.contains [] v).filter (!·.isEmpty)
 
-/-- `"pre$@post"`: one field per parameter, the first glued to `pre`, the last to `post` -/
+/-- `"pre$@post"`: one field per parameter, the first glued to `pre`, the last to `post`; without parameters the
+text around it, unless that is empty too (then the word is removed, as `"$@"` alone is) -/
 def atTail (post : Str) : List Str → List Str
   | [] => []
   | [b] => [b ++ post]
   | b :: c :: r => b :: atTail post (c :: r)
 
 def atGlue (pre post : Str) : List Str → List Str
-  | [] => [pre ++ post]
+  | [] => if (pre ++ post).isEmpty then [] else [pre ++ post]     -- no parameters and nothing else: no field at all
   | [a] => [pre ++ a ++ post]
   | a :: b :: r => (pre ++ a) :: atTail post (b :: r)
 
